@@ -193,7 +193,10 @@ with unit_ (fuel : nat) (e : expr) (st : state) {struct fuel} : R obj :=
   | O => (st, OutOfFuel)
   | S fuel' =>
       match e with
-      | ELit (Some a) bs => if 255 <? zlen bs then errR st 15 else retR st (OStr (zlen bs, a))
+      | ELit (Some a) bs =>
+          if 255 <? zlen bs then errR st 15
+          else if var_start c <=? a then (st, Host host_Other)     (* not a program literal: never printed *)
+          else retR st (OStr (zlen bs, a))
       | ELit None bs => doR (st1, p) <- store c st bs; retR st1 (OStr p)
       | ENum t z => retR st (ONum t z)
       | EVar n =>
